@@ -203,11 +203,23 @@ def r4(tree, rep):
             return len(c.args) > i and argpred(c.args[i])
         return False
     dd = tree.func(MGR, "Dilator", "dilate")
-    g = build(dd)
-    pv = [t for t in g.nodes(lambda s: isinstance(s, ast.If)) if is_self_attr(g.stmt[t].test, "_pending_wormhole_versions")]
+    from ..cfg import none_atom as _na
+    g = build(dd, split=True)
     fw = g.call_nodes(lambda c: is_forward(c, lambda a: is_self_attr(a, "_pending_wormhole_versions")))
-    ok = len(pv) == 1 and len(fw) == 1 and g.must_pass(fw, start=g.branch_targets(pv[0], 'T'), to=[g.exit], explicit_only=True)
-    rep.check("C17.R4", "Dilator.dilate forwards versions that arrived earlier to the newly created manager", ok, site(dd, MGR), key="C17.R4:pending-versions")
+    # the slot holds None ("nothing arrived yet") or the peer's versions - a JSON object that may be EMPTY (a peer that announces
+    # nothing cannot dilate, and must be reported).  Only `is None` separates the two: once the manager exists, every path to the end of
+    # dilate() on which the slot is not known to be None hands it on
+    nothing_yet = g.cond_edges(_na(lambda e: is_self_attr(e, "_pending_wormhole_versions")), True)
+    made = g.nodes(lambda s: isinstance(s, ast.Assign) and any(is_self_attr(t, "_manager") for t in s.targets))
+    ok = len(fw) == 1 and bool(nothing_yet) and bool(made)
+    if ok:
+        r = g.reach([y for n in made for (y, lab) in g.succ[n] if lab != 'exc'], avoid_nodes=set(fw), avoid_edges=set(nothing_yet), explicit_only=True)
+        ok = g.exit not in r
+    rep.check("C17.R4", "Dilator.dilate forwards versions that arrived earlier to the newly created manager: always, unless the slot is None "
+              "(an empty versions object is forwarded too)", ok, site(dd, MGR), key="C17.R4:pending-versions",
+              what="versions that arrived before dilate() are not always handed to the new Manager (a truthiness test drops the empty "
+                   "object {} of a peer that announces nothing): the Manager stays WAITING and connect() hangs instead of failing with "
+                   "OldPeerCannotDilateError")
     gw = tree.func(MGR, "Dilator", "got_wormhole_versions")
     g = build(gw)
     p0 = params(gw)[0]
@@ -456,10 +468,11 @@ def run(tree, rep, tier):
     # R11: Manager.fail records the failure on the main channel before anything else can run (and possibly raise): the pending and future
     # connect() calls are failed first
     ff_ = tree.func(MGR, "Manager", "fail")
-    body_ = [st_ for st_ in ff_.body if not (isinstance(st_, ast.Expr) and isinstance(st_.value, ast.Constant))]
-    first_ = body_[0] if body_ else None
-    ok_ = first_ is not None and any(isinstance(c_, ast.Call) and (dotted(c_.func) or "").endswith("_main_channel.error") for c_ in ast.walk(first_)) \
-        and isinstance(first_, ast.Expr)
+    g_ = build(ff_)
+    err_ = g_.call_nodes(lambda c_: (dotted(c_.func) or "").endswith("_main_channel.error"))
+    # anything that can run application code or raise for another reason: every call except type inspection of the argument
+    other_ = g_.call_nodes(lambda c_: not (dotted(c_.func) or "").endswith("_main_channel.error") and dotted(c_.func) not in ("isinstance", "type", "repr", "str"))
+    ok_ = bool(err_) and g_.must_pass(err_) and not g_.precedes(err_, [n_ for n_ in other_ if n_ not in err_])
     rep.check("C17.R11", "Manager.fail errors the main channel first (before status updates or any other call that could raise)", ok_, site(ff_, MGR),
               key="C17.R11:fail:error-first",
               what="Manager.fail does something else before it records the failure on the main channel: if that raises (an application status "
@@ -476,6 +489,11 @@ def run(tree, rep, tier):
     r6(tree, rep)
     r7(tree, rep, tier)
     r10(tree, rep, tier)
+    from ..tablerules import application_outputs_last
+    application_outputs_last(rep, "C17.R12", prog.machine("Manager"),
+                             "the Manager never reaches STOPPED / never starts the next generation, and the wormhole's close waits for it", min_rows=6)
+    application_outputs_last(rep, "C17.R12", prog.machine("Boss"),
+                             "the Dilator never hears the key / the peer's versions, so an incapable peer is never reported", app_attrs=(), min_rows=3)
 
 
 MUTANTS = [
@@ -498,8 +516,17 @@ REWRITES = []
 MUTANTS.append(Mutant("timer-lost-row-misplaced", MGR, "    idle_traffic.upon(\n        lost_connection,\n        enter=no_connection,\n        outputs=[]\n    )",
                       "    no_connection.upon(\n        lost_connection,\n        enter=no_connection,\n        outputs=[]\n    )", ("C17.R10", "C17.R6"),
                       "close() after one silent interval: lost_connection raises in idle_traffic, the Manager stays STOPPING"))
-MUTANTS.append(Mutant("late-dilate-wrong-pending-test", MGR, "            if self._pending_wormhole_versions:\n                self._deliver_versions(self._pending_wormhole_versions)",
+MUTANTS.append(Mutant("late-dilate-wrong-pending-test", MGR, "            if self._pending_wormhole_versions is not None:\n                self._deliver_versions(self._pending_wormhole_versions)",
                       "            if self._pending_inbound_dilate_messages:\n                self._deliver_versions(self._pending_wormhole_versions)", ("C17.R4", "C17.R7")))
-MUTANTS.append(Mutant("versions-stripped-for-dilator", "src/wormhole/_boss.py", "        self._their_versions = bytes_to_dict(plaintext)\n        self._D.got_wormhole_versions(self._their_versions)\n        # but this part is app-to-app\n        app_versions = self._their_versions.get(\"app_versions\", {})",
-                      "        their_versions = bytes_to_dict(plaintext)\n        app_versions = their_versions.pop(\"app_versions\", {})\n        self._their_versions = their_versions\n        self._D.got_wormhole_versions(self._their_versions)", "C17.R7",
-                      "an old peer's versions reach the Dilator as an empty (falsy) dict: a late dilate() never forwards them"))
+REWRITES.append(Rewrite("versions-stripped-for-dilator", "src/wormhole/_boss.py", "        self._their_versions = bytes_to_dict(plaintext)\n        self._D.got_wormhole_versions(self._their_versions)\n        # but this part is app-to-app\n        app_versions = self._their_versions.get(\"app_versions\", {})",
+                      "        their_versions = bytes_to_dict(plaintext)\n        app_versions = their_versions.pop(\"app_versions\", {})\n        self._their_versions = their_versions\n        self._D.got_wormhole_versions(self._their_versions)",
+                        desc="seed C17-10 after the repair of F15: an old peer's versions reach the Dilator as an empty dict, which dilate() now forwards"))
+MUTANTS.append(Mutant("pending-versions-truthiness", MGR, "            if self._pending_wormhole_versions is not None:", "            if self._pending_wormhole_versions:", "C17.R4",
+                      "an empty versions object that arrived before dilate() is dropped (finding F15)"))
+REWRITES.append(Rewrite("pending-versions-none-early", MGR, "            if self._pending_wormhole_versions is not None:\n                self._deliver_versions(self._pending_wormhole_versions)",
+                        "            if self._pending_wormhole_versions is None:\n                return self._manager._api\n            self._deliver_versions(self._pending_wormhole_versions)",
+                        desc="inverted None test with early return"))
+MUTANTS.append(Mutant("status-before-versions", "src/wormhole/_boss.py", "    S2_happy.upon(_got_version, enter=S2_happy, outputs=[process_version, send_status_confirmed_key])",
+                      "    S2_happy.upon(_got_version, enter=S2_happy, outputs=[send_status_confirmed_key, process_version])", "C17.R12",
+                      "a raising status callback keeps the peer's versions from the Dilator: an incapable peer is never reported (seed C17-11)"))
+MUTANTS.append(Mutant("status-before-notify-stopped", MGR, "    LONELY.upon(stop, enter=STOPPED, outputs=[notify_stopped, send_status_stopped])", "    LONELY.upon(stop, enter=STOPPED, outputs=[send_status_stopped, notify_stopped])", "C17.R12"))
